@@ -473,7 +473,18 @@ def execute(case: dict) -> dict:
         # scheduled with call_soon_threadsafe() but the loop ended before running it; the
         # caller blocks in Future.result() forever.  Mechanism: the portal context has
         # exited, its thread is gone, the hung call never started executing.
-        mech = F14_KEY if (exit_end is not None and never_ran and portal_gone and hung_calls) else None
+        # ... or (same mechanism through another door) the caller is inside Future.cancel():
+        # the future's done-callback marshals scope.cancel() into the portal's loop with
+        # from_thread.run_sync() and waits for it - the call itself had already ended
+        kind_of = {c["cid"]: c["kind"] for c in all_calls}
+        in_cancel = all(
+            mon.count.get(("exec_start", cid), 0) == 0
+            or (kind_of[cid] == "quick_cancel" and ("future_cancel", cid) in mon.first
+                and any(e[1] == "exec_end" and e[2] == cid for e in mon.log))
+            for cid in hung_calls
+        )
+        mech = F14_KEY if (exit_end is not None and (never_ran or in_cancel) and portal_gone
+                           and hung_calls) else None  # fmt: skip
         viol.append(("call-left-hanging-after-portal-exit",
                      {"hung_calls": hung_calls, "stuck_threads": stuck, "never_ran": never_ran},
                      mech))  # fmt: skip
